@@ -653,6 +653,7 @@ func genCase(seed uint64, profile string, deep, cold bool) *Case {
 		}
 	}
 	c.ExpandCheck = r.chance(1, 3)
+	c.PoolsRetain = r.chance(1, 3)
 	c.Pretouch = r.chance(1, 2)
 	if cold {
 		c.ConcFirst, c.Pretouch = true, false
